@@ -47,7 +47,10 @@ META = {
             "main > c1 > c2 with non-degenerate multi-component defaults and elements / nested classes that coincide with the "
             "class value in some components only (all, none, first, last, random mask, shorter vector, single value) for every "
             "multi-component attribute (generated-table rows with len > 1 incl. hand-written ones, springlength, user arrays) of "
-            "geom, joint, site, camera, light, pair, material, tendon, general actuator and equality. "
+            "geom, joint, site, camera, light, pair, material, tendon, general actuator and equality, and single-precision "
+            "documents: random float32 values (printed with 9 significant digits; binades where 8 digits do not identify a "
+            "float) in every float-typed attribute of visual/*, material, light, geom/site/tendon rgba and the camera, in "
+            "default classes and instances, which must reload bitwise at xml precision 17. "
             "Model/XmlDefaults.lean models mjXWriter::WriteAttrTable with WriteAttr/WriteAttrKey "
             "(NaN skip, SameVector elision against the default, trailing-default trim of non-exact rows, keyword lookup) and "
             "mjXReader::ReadAttrTableCore with ReadAttr/MapValue (absent -> keep the default, arity checks, prefix overwrite, "
@@ -568,6 +571,97 @@ def default_coincidence_doc(rng, tj):
     return {"xml": "\n".join(L) + "\n", "patterns": hist}
 
 
+# ------------------------------------------------------------------------------------------ single-precision documents
+# Documents whose FLOAT-typed (single-precision) attributes -- every kFloat row of the generated tables that can be put in
+# a mesh-free document (visual/global|headlight|map|scale|rgba, material, geom/site/tendon rgba, light; default class and
+# instance) plus the hand-written float attributes of the camera -- hold random float32 values printed with the 9
+# significant digits a float needs.  A full-precision save has to print enough digits for THEM to reload bitwise; the
+# other generators only use short decimals / dyadic values, which survive any precision.  Value ranges: binades where 8
+# significant digits do not identify a float ([0.1,0.125), [10,16), [100,128)), uniform ones, and a raw random mantissa.
+FP_TABLES = (("kGlobalAttrs", "visual", "global"), ("kHeadlightAttrs", "visual", "headlight"), ("kMapAttrs", "visual", "map"),
+             ("kScaleAttrs", "visual", "scale"), ("kRgbaAttrs", "visual", "rgba"), ("kMaterialAttrs", "elem", "material"),
+             ("kGeomAttrs", "elem", "geom"), ("kSiteAttrs", "elem", "site"), ("kLightAttrs", "elem", "light"),
+             ("kSpatialAttrs", "elem", "tendon"))
+FP_UNIT = {"rgba", "ambient", "diffuse", "specular", "emission", "shininess", "reflectance", "metallic", "roughness", "glow",
+           "haze", "alpha", "softness"}      # colour-like: keep in [0, 1)
+
+
+def _rand_f32(rng, unit, hist):
+    c = rng.random()
+    if c < 0.4:
+        k, v = "[0.1,0.125)", rng.uniform(0.1, 0.125)
+    elif c < 0.55 and not unit:
+        k, v = "[10,16)", rng.uniform(10.0, 16.0)
+    elif c < 0.65 and not unit:
+        k, v = "[100,128)", rng.uniform(100.0, 128.0)
+    elif c < 0.85:
+        k, v = "uniform[0.03125,1)", rng.uniform(0.03125, 1.0)
+    else:
+        # random 23-bit mantissa in a random binade of [2^-5, 1) (unit) or [2^-5, 2^7)
+        k = "random mantissa"
+        e = rng.randint(122, 126 if unit else 133)
+        v = struct.unpack("<f", struct.pack("<I", (e << 23) | rng.getrandbits(23)))[0]
+    v = f32(v)
+    if unit and v >= 1.0:
+        v = f32(0.99999994)
+    hist[k] = hist.get(k, 0) + 1
+    t = "%.9g" % v
+    assert f32(float(t)) == v
+    if f32(float("%.8g" % v)) != v:
+        hist["values that need all 9 digits"] = hist.get("values that need all 9 digits", 0) + 1
+    hist["values"] = hist.get("values", 0) + 1
+    return t
+
+
+def float_precision_doc(rng, tj, hist):
+    R = rng.random
+    tables = {t["name"]: t["rows"] for t in tj["tables"]}
+
+    def attrs(tname, p, default=False):
+        out = []
+        for r in tables.get(tname, []):
+            if r["kind"] != "kFloat" or r["handwrite"] or (default and r["nodefault"]) or R() > p:
+                continue
+            out.append('%s="%s"' % (r["attr"], " ".join(_rand_f32(rng, r["attr"] in FP_UNIT or tname == "kRgbaAttrs", hist)
+                                                       for _ in range(r["len"]))))
+        return " ".join(out)
+    L = ["<mujoco>"]
+    vis = []
+    for tname, where, tag in FP_TABLES:
+        if where == "visual" and R() < 0.7:
+            a = attrs(tname, 0.5)
+            if a:
+                vis.append("    <%s %s/>" % (tag, a))
+    if vis:
+        L += ["  <visual>"] + vis + ["  </visual>"]
+    if R() < 0.6:
+        L.append("  <default>")
+        for tname, where, tag in FP_TABLES:
+            if where == "elem" and R() < 0.6:
+                a = attrs(tname, 0.5, default=True)
+                if a:
+                    L.append("    <%s %s/>" % (tag, a))
+        L.append("  </default>")
+    L += ["  <asset>", '    <material name="m1" %s/>' % attrs("kMaterialAttrs", 0.6),
+          '    <material name="m2" %s/>' % attrs("kMaterialAttrs", 0.3), "  </asset>", "  <worldbody>",
+          "    <light %s/>" % attrs("kLightAttrs", 0.5)]
+    for b, pos in (("1", "0 0 1"), ("2", "1 0 1")):
+        L.append('    <body name="b%s" pos="%s">' % (b, pos))
+        L.append('      <joint name="j%s"/>' % b)
+        L.append('      <geom name="g%s" size="0.125"%s %s/>' % (b, rng.choice(("", ' material="m1"', ' material="m2"')), attrs("kGeomAttrs", 0.7)))
+        L.append('      <site name="s%s" %s/>' % (b, attrs("kSiteAttrs", 0.7)))
+        if R() < 0.5:
+            L.append("      <light %s/>" % attrs("kLightAttrs", 0.4))
+        if R() < 0.4:
+            # hand-written float attributes of the camera
+            L.append('      <camera name="c%s" resolution="64 48" sensorsize="%s %s" focal="%s %s"/>'
+                     % ((b,) + tuple(_rand_f32(rng, True, hist) for _ in range(4))))
+        L.append("    </body>")
+    L += ["  </worldbody>", "  <tendon>", '    <spatial name="t1" %s><site site="s1"/><site site="s2"/></spatial>' % attrs("kSpatialAttrs", 0.8),
+          "  </tendon>", "</mujoco>"]
+    return "\n".join(L) + "\n"
+
+
 # ------------------------------------------------------------------------------------------ round-trip oracle
 def classify(fields):
     """fields: list of (name, count, first, a, b) of a diff line"""
@@ -928,6 +1022,21 @@ def _run(ctx):
         if i % 2 == 0:
             ops6 += ["model " + oid] + pre + mdl.lines + ["end"]
     ctx.extra["compiler_stage_documents"]["mjSpec programs with discardvisual / inertiafromgeom"] = nspec
+    # single-precision documents: random float32 values (9 significant digits) in every float-typed attribute
+    nfp = 300 if thorough else 40
+    fphist = {}
+    for i in range(nfp):
+        txt = float_precision_doc(rng, tj, fphist)
+        oid = "fp%d" % i
+        meta[oid] = {"origin": "single-precision MJCF (random float32 values in the float-typed attributes)", "xml": txt}
+        ops17.append("xml %s %s" % (oid, txt.encode().hex()))
+        if i % 4 == 0:
+            ops6.append("xml %s %s" % (oid, txt.encode().hex()))
+    ctx.extra["single_precision_documents"] = {
+        "documents": nfp, "value_distribution": fphist,
+        "tables": [t for t, _, _ in FP_TABLES] + ["camera sensorsize / focal (hand-written)"],
+        "text": "float32 values printed with %.9g; 40% in [0.1,0.125), 15% [10,16) and 10% [100,128) (attributes that are not "
+                "colour-like), 20% uniform [0.03125,1), 15% random mantissa in a random binade"}
     # shipped models
     files = sorted(glob.glob(os.path.join(common.REPO, "model", "**", "*.xml"), recursive=True))
     if not thorough:
